@@ -47,8 +47,8 @@ _FLOORS = {"col.cases": 500, "col.rows.supplied": 30000, "col.rows.default": 900
           "idx.verifies.with_deletions": 250, "idx.buffered.verifies": 250, "idx.reopen.copy_to_ram": 80,
           "idx.reopen.reopened": 80, "idx.loose": 100, "idx.compound": 150}
 FLOORS = {"quick": _FLOORS,
-          "thorough": dict(_FLOORS, **{"col.refbytes.distinct>65535": 20, "col.varbytes.rows>32768": 40,
-                                       "col.varbytes.offtype.i": 20})}
+          "thorough": dict(_FLOORS, **{"col.refbytes.distinct>65535": 12, "col.varbytes.rows>32768": 25,
+                                       "col.varbytes.offtype.i": 60})}
 
 
 def rb(rng, n):
@@ -496,7 +496,7 @@ def column_case(ctx, rng, big=None):
                 r3 = open_reader()
                 for i in order[:100]:
                     ek = sp.sortkey(expected[i])
-                    if ek is None:
+                    if ek is None or i in soft:
                         continue
                     k = r3.sort_key(i)
                     ctx.count("col.sortkeys")
@@ -1035,15 +1035,15 @@ def index_case(ctx, rng):
 # ----------------------------------------------------------------------
 
 def run(ctx):
-    for idx in ctx.cases(quick=700, thorough=4000):
+    for idx in ctx.cases(quick=700, thorough=3000):
         rng = ctx.rng(idx)
         ctx.reseed_global(idx)
         if idx % 5 < 2:
             shape, nontrivial, w = index_case(ctx, rng)
         else:
             big = None
-            if not ctx.quick and idx % 100 == 2:
-                big = "ref65536" if (idx // 100) % 2 == 0 else "var32768"
+            if not ctx.quick and idx % 200 == 2:
+                big = "ref65536" if (idx // 200) % 2 == 0 else "var32768"
                 ctx.count("col.big.%s" % big)
             shape, nontrivial, w = column_case(ctx, rng, big)
         ctx.case(shape, nontrivial, sample=w if idx % 101 in (0, 1) else None)
